@@ -26,8 +26,6 @@ func runC04(w *World) *Result {
 	DispatchRule(w, r, "R-C04-dispatch")
 	c04Once(w, r)
 	StaleListRule(w, r, "R-C04-once")
-	c04OnceLoop(w, r)
-	c04OnceAcross(w, r)
 	r.Rule("R-C04-wiring", "every Converter parameter is fed from the node child it stands for (operands, names and flags are not crossed)", 30)
 	WiringRule(w, r, "R-C04-wiring", nil)
 	r.Rule("R-C04-srcorder", "slots evaluated in a fixed order by the driver hold expressions parsed in that order", 5)
@@ -557,249 +555,4 @@ func c04Bodies(w *World, r *Result, rule string) {
 	if n == 0 {
 		r.Bad(rule, "body:none", "-", "no branch body store found in the parser")
 	}
-}
-
-// c04OnceLoop: a parsed expression that is obtained before a loop and stored into an
-// evaluated slot of a node built in every iteration of the loop is evaluated once per
-// iteration when all those nodes stay in the tree (the tag of a switch compared in every case).
-func c04OnceLoop(w *World, r *Result) {
-	rule := "R-C04-once"
-	pf, err := BuildParserFacts(w)
-	if err != nil {
-		return
-	}
-	n := 0
-	seenKey := map[string]bool{}
-	for _, s := range pf.Slots {
-		if s.List || slotReq[s.Key()] == "-" {
-			continue
-		}
-		blk := s.Instr.Block()
-		if blk == nil {
-			continue
-		}
-		fn := s.Fn
-		loops := naturalLoops(fn)
-		hdr := loops[blk]
-		if hdr == nil {
-			continue
-		}
-		body := loopBody(hdr)
-		// a variable of the loop that is replaced in the iteration (left = node{left, …}) holds the
-		// outside value in the first iteration only
-		carried := false
-		var back func(v ssa.Value, d int)
-		back = func(v ssa.Value, d int) {
-			if d > 6 || v == nil {
-				return
-			}
-			switch x := v.(type) {
-			case *ssa.Phi:
-				if body[x.Block()] {
-					carried = true
-				}
-			case *ssa.MakeInterface:
-				back(x.X, d+1)
-			case *ssa.ChangeInterface:
-				back(x.X, d+1)
-			}
-		}
-		back(s.Val, 0)
-		if carried {
-			continue
-		}
-		for _, o := range pf.origins(s.Val, map[ssa.Value]bool{}) {
-			if o.kind != "value" || o.val == nil {
-				continue
-			}
-			ins, ok := o.val.(ssa.Instruction)
-			if !ok || ins.Block() == nil || ins.Parent() != fn || body[ins.Block()] {
-				continue // produced inside the loop (one per iteration), or a parameter
-			}
-			if _, isPhi := o.val.(*ssa.Phi); isPhi {
-				continue
-			}
-			n++
-			key := fmt.Sprintf("once:loop:%s:%s.%s", FuncName(fn), s.Node, s.Field)
-			if seenKey[key] {
-				continue
-			}
-			seenKey[key] = true
-			pos := w.Pos(s.Instr.Pos())
-			if effectFreeProducer(w, o.val) {
-				r.Ok(rule, key, pos, "the expression stored in every iteration is a plain reference or literal")
-				continue
-			}
-			at := o.val.Pos()
-			if ex, ok := o.val.(*ssa.Extract); ok {
-				at = ex.Tuple.Pos()
-			}
-			r.Bad(rule, key, pos, fmt.Sprintf("the expression parsed at %s, before the loop, is stored into %s.%s of a node built in every iteration, and the driver evaluates that slot of each of them: an expression that calls a function (switch next() { case 1: … case 2: … }) runs it once per iteration instead of once", w.Pos(at), s.Node, s.Field))
-		}
-	}
-	r.Analysed["slots_filled_in_loops_from_outside"] = n
-}
-
-// c04OnceAcross: the same parsed expression stored into evaluated slots of two different
-// nodes that are built on one path (both end up in the tree) is evaluated twice: the list of a
-// range loop used for the length test and for the element read.
-func c04OnceAcross(w *World, r *Result) {
-	rule := "R-C04-once"
-	pf, err := BuildParserFacts(w)
-	if err != nil {
-		return
-	}
-	type use struct {
-		s   SlotStore
-		lit ssa.Value
-	}
-	byVal := map[ssa.Value][]use{}
-	var order []ssa.Value
-	for _, s := range pf.Slots {
-		if s.List || slotReq[s.Key()] == "-" || s.Instr.Block() == nil {
-			continue
-		}
-		var lit ssa.Value
-		if st, ok := s.Instr.(*ssa.Store); ok {
-			if fa, ok := st.Addr.(*ssa.FieldAddr); ok {
-				lit = fa.X
-			}
-		}
-		for _, o := range pf.origins(s.Val, map[ssa.Value]bool{}) {
-			if o.kind != "value" || o.val == nil {
-				continue
-			}
-			ins, ok := o.val.(ssa.Instruction)
-			if !ok || ins.Parent() != s.Fn {
-				continue
-			}
-			if _, ok := byVal[o.val]; !ok {
-				order = append(order, o.val)
-			}
-			byVal[o.val] = append(byVal[o.val], use{s, lit})
-		}
-	}
-	n := 0
-	for _, v := range order {
-		us := byVal[v]
-		for i := 0; i < len(us); i++ {
-			for j := i + 1; j < len(us); j++ {
-				a, b := us[i], us[j]
-				if a.s.Fn != b.s.Fn || (a.lit != nil && a.lit == b.lit) || a.s.Instr == b.s.Instr {
-					continue // one node: judged by the clause above
-				}
-				ba, bb := a.s.Instr.Block(), b.s.Instr.Block()
-				def := defBlock(a.s.Fn, v)
-				if !(ba == bb || feasibleThrough(a.s.Fn, ba, bb, def) || feasibleThrough(a.s.Fn, bb, ba, def)) {
-					continue // alternatives, or the value is parsed anew in between
-				}
-				n++
-				slots := []string{a.s.Key(), b.s.Key()}
-				sort.Strings(slots)
-				key := fmt.Sprintf("once:across:%s:%s", FuncName(a.s.Fn), strings.Join(slots, "+"))
-				pos := w.Pos(b.s.Instr.Pos())
-				if effectFreeProducer(w, v) {
-					r.Ok(rule, key, pos, "the expression shared by the two nodes is a plain reference or literal")
-					continue
-				}
-				// a value that comes from the reader of plain references on one way and from the
-				// general expression reader on another: which ways the callers allow depends on the token
-				// they have seen, which is not decided here (no report)
-				mixed := func(sv ssa.Value) bool {
-					for i := 0; i < 4; i++ {
-						switch x := sv.(type) {
-						case *ssa.MakeInterface:
-							sv = x.X
-							continue
-						case *ssa.ChangeInterface:
-							sv = x.X
-							continue
-						case *ssa.Phi:
-							for _, e := range x.Edges {
-								if effectFreeProducer(w, e) {
-									return true
-								}
-							}
-						}
-						break
-					}
-					return false
-				}
-				{
-					if mixed(a.s.Val) || mixed(b.s.Val) {
-						r.Triv(rule, key, pos, "not decided: one producer of the shared expression is the reader of plain references")
-						continue
-					}
-				}
-				at := v.Pos()
-				if ex, ok := v.(*ssa.Extract); ok {
-					at = ex.Tuple.Pos()
-				}
-				r.Bad(rule, key, pos, fmt.Sprintf("the expression parsed at %s is stored into %s and into %s, slots of two nodes built on the same path, and the driver evaluates both: an expression that calls a function runs it twice (or once per iteration, for the header of a loop)", w.Pos(at), slots[0], slots[1]))
-			}
-		}
-	}
-	r.Analysed["expressions_shared_by_two_nodes"] = n
-}
-
-// feasibleThrough: some path from the entry of fn passes through a and later reaches b without
-// going through def again (where the shared value is produced anew), taking branches on one
-// and the same condition value the same way each time.
-func feasibleThrough(fn *ssa.Function, a, b, def *ssa.BasicBlock) bool {
-	uses := map[ssa.Value]int{}
-	for _, blk := range fn.Blocks {
-		if c, _ := condOf(blk); c != nil {
-			uses[c]++
-		}
-	}
-	type state struct {
-		blk   int
-		seenA bool
-		asg   string
-	}
-	memo := map[state]bool{}
-	var dfs func(blk *ssa.BasicBlock, seenA bool, asg map[ssa.Value]bool) bool
-	dfs = func(blk *ssa.BasicBlock, seenA bool, asg map[ssa.Value]bool) bool {
-		if blk == a {
-			seenA = true
-		} else if blk == b && seenA {
-			return true
-		}
-		var ks []string
-		for c, v := range asg {
-			ks = append(ks, fmt.Sprintf("%s=%v", c.Name(), v))
-		}
-		sort.Strings(ks)
-		st := state{blk.Index, seenA, strings.Join(ks, ",")}
-		if memo[st] {
-			return false
-		}
-		memo[st] = true
-		c, neg := condOf(blk)
-		for i, sc := range blk.Succs {
-			if seenA && sc == def && def != a {
-				continue
-			}
-			next := asg
-			if c != nil && len(blk.Succs) == 2 && blk.Succs[0] != blk.Succs[1] && uses[c] > 1 {
-				val := (i == 0) != neg
-				if old, ok := asg[c]; ok {
-					if old != val {
-						continue
-					}
-				} else {
-					next = map[ssa.Value]bool{}
-					for k, v := range asg {
-						next[k] = v
-					}
-					next[c] = val
-				}
-			}
-			if dfs(sc, seenA, next) {
-				return true
-			}
-		}
-		return false
-	}
-	return dfs(fn.Blocks[0], false, map[ssa.Value]bool{})
 }
